@@ -162,7 +162,14 @@ func newWorld(interval, timeout time.Duration) (*world, error) {
 	}
 	lg := logger.NewPlainStyledLogger(slog.New(countHandler{&w.recovered}))
 	w.chk = health.NewHTTPHealthChecker(w.repo, lg, w.client)
-	w.chk.SetRecoveryCallback(health.RecoveryCallbackFunc(func(_ context.Context, ep *domain.Endpoint) error {
+	w.chk.SetRecoveryCallback(health.RecoveryCallbackFunc(func(cbCtx context.Context, ep *domain.Endpoint) error {
+		// the production callback (model re-discovery) does I/O with the context it is handed: a callback whose
+		// context is already dead when it gets going re-discovers nothing and is not counted as one
+		select {
+		case <-cbCtx.Done():
+			return cbCtx.Err()
+		case <-time.After(2 * time.Millisecond):
+		}
 		w.mu.Lock()
 		w.cbStamps = append(w.cbStamps, ep.LastChecked.UnixNano())
 		w.mu.Unlock()
@@ -226,7 +233,10 @@ func runOnce(interval, timeout time.Duration, ops []op) (outOps []op, obs []int6
 			_ = w.chk.RunHealthCheck(ctx, false)
 		case kSched:
 			atomic.StoreInt64(&w.client.next, o[1])
-			health.VerifTickerRound(w.chk, ctx)
+			// exactly what healthCheckLoop does on a ticker firing: a per-round context, cancelled as soon as the round returns
+			roundCtx, cancelRound := context.WithTimeout(context.Background(), health.DefaultHealthCheckInterval/2)
+			health.VerifTickerRound(w.chk, roundCtx)
+			cancelRound()
 		case kProxyFail:
 			snap := w.ep()
 			req := httptest.NewRequest(http.MethodGet, "/olla/proxy/v1/models", nil)
